@@ -705,6 +705,28 @@ def run_generation(gen_spec, index):
         helper.join(timeout=max(0.0, deadline - time.monotonic()))
         if helper.is_alive():
             LOG("helper-stuck", gen=index)
+    # thread payloads may also still be inside a (delayed) shutdown / adopt / execute call: a call counts as
+    # "never returned" only if it is still open after this wait
+    def open_calls():
+        with LOG.lock:
+            events = [e for e in LOG.events if e.get("gen") == index]
+        done = {}
+        for e in events:
+            if e["kind"] in ("return", "raised"):
+                key = (e.get("op"), e.get("pid"), e.get("by"))
+                done[key] = done.get(key, 0) + 1
+        pending = 0
+        for e in events:
+            if e["kind"] == "call" and e.get("op") in ("shutdown", "adopt", "execute", "stop"):
+                key = (e.get("op"), e.get("pid"), e.get("by"))
+                if done.get(key, 0) > 0:
+                    done[key] -= 1
+                else:
+                    pending += 1
+        return pending
+
+    while open_calls() and time.monotonic() < deadline:
+        time.sleep(0.05)
     LOG("generation-end", gen=index, running_flag=world.runner.running.is_set())
 
 
